@@ -109,9 +109,12 @@ local always = function() return true end
 local never = function() return nil end
 local yielder = coroutine.yield
 local wrapped = coroutine.wrap(function(...) while true do coroutine.yield(...) end end)
+local nameself = {} nameself.__name = nameself setmetatable(nameself, nameself)
+local nameA, nameB = {}, {} setmetatable(nameA, {__name = nameB}) setmetatable(nameB, {__name = nameA})
+local nametbl = setmetatable({}, {__name = setmetatable({}, {__tostring = function() error("in __name") end})})
 local mixed = {3, "a", 2.5, {}, true}
 local nums = {5, 3, 8, 1, 9, 2, 7}
-return evil, rec, dead, susp, fresh, big, weird, function(...) return ... end, bad, io.stdout, io.stderr, selfidx, runtime.context(), callself, callchain, lenself, eqloop, roproxy, holeproxy, lenhuge, lenneg, lenstr, lenflt, lenvar, tsnum, always, never, yielder, wrapped, mixed, nums
+return evil, rec, dead, susp, fresh, big, weird, function(...) return ... end, bad, io.stdout, io.stderr, selfidx, runtime.context(), callself, callchain, lenself, eqloop, roproxy, holeproxy, lenhuge, lenneg, lenstr, lenflt, lenvar, tsnum, always, never, yielder, wrapped, mixed, nums, nameself, nameA, nametbl
 `
 
 func corrupt(g *core.Tape, src string) (string, string) {
@@ -367,6 +370,57 @@ func runCrash(ctx *core.RunCtx) {
 			ctx.Count("outcome.error", 1)
 		} else {
 			ctx.Count("outcome.ran", 1)
+		}
+	case "nolimit":
+		// no limit at all: sizes that no allocator can serve must come back as errors, not as panics of
+		// the allocator (which pcall does not catch, and which end the process when they happen in a
+		// coroutine); sizes that merely exceed the memory of the machine are not tried - Go cannot
+		// recover from running out of memory and the property is about resource-limited contexts
+		huge := []string{"math.maxinteger", "math.maxinteger // 2", "1 << 62", "1 << 61", "(1 << 48) + 1", "1 << 56", "math.mininteger", "-1"}[g.Choose(8)]
+		calls := []string{
+			`string.rep("a", N)`, `string.rep("ab", N, "")`, `string.rep("", N, "ab")`, `string.rep("a", N, "b")`, `("x"):rep(N // 2, "yz")`,
+			`io.stdout:setvbuf("full", N)`, `io.stderr:setvbuf("line", N)`, `string.format("%" .. N .. "d", 1)`, `string.format("%." .. N .. "f", 1)`,
+			`table.concat({"a", "b"}, ("s"):rep(10), 1, N)`, `table.unpack({}, 1, N)`, `table.unpack({}, -N, N)`, `utf8.char(N)`, `string.char(N)`, `("x"):sub(-N, N)`, `("x"):byte(-N, N)`, `io.read(N)`, `io.lines("/dev/null", N)`,
+			`select(N, 1)`, `math.random(N)`, `string.unpack("c" .. N, "x")`, `utf8.codepoint("x", 1, N)`, `tostring(setmetatable({}, {__name = ("n"):rep(100)}))`, `load(("x"):rep(100), ("n"):rep(100))`,
+		}
+		c := calls[g.Choose(len(calls))]
+		wrapk := g.Choose(3)
+		src := `local N = ` + huge + ` return pcall(function() return ` + c + ` end)`
+		switch wrapk {
+		case 1:
+			src = `local N = ` + huge + ` return coroutine.wrap(function() return pcall(function() return ` + c + ` end) end)()`
+		case 2:
+			src = `local N = ` + huge + ` local co = coroutine.create(function() return ` + c + ` end) return coroutine.resume(co)`
+		}
+		ctx.Sample = src
+		ctx.Shape = core.HashString(src)
+		ctx.Count("fault.size no allocator can serve, no limit in force", 1)
+		out := h.Run("nolimit", src)
+		if out.Panic != nil {
+			failP("absurd-size", out.Panic, c+" with N = "+huge)
+			return
+		}
+	case "pkg":
+		// the package library keeps its state in tables any program can overwrite: whatever they hold,
+		// require / searchpath / the searchers end in a value or an error (run without limits: these
+		// functions do not declare any compliance)
+		sets := []string{`package.preload = %s`, `package.loaded = %s`, `package.searchers = %s`, `package.searchers = {%s}`, `package.path = %s`, `package.cpath = %s`, `package.config = %s`,
+			`package.searchers[1] = %s`, `package.searchers[2] = %s`, `package.preload.zz = %s`, `package.loaded.zz = %s`, `package.searchpath = %s`, `package = %s`, `package.loaded._G = %s`, `package.loaded.string = %s`}
+		vals := []string{"1", "nil", `"x"`, "true", "{}", "1.5", "print", "setmetatable({}, {__index = function() error('idx') end})", "coroutine.create(print)", "function() return 1, 2, 3 end", "function() return function() error({}) end end", `("?;"):rep(1000)`, `"\0"`, "io.stdout"}
+		var src strings.Builder
+		for i, k := 0, 1+g.Choose(3); i < k; i++ {
+			fmt.Fprintf(&src, sets[g.Choose(len(sets))]+"\n", vals[g.Choose(len(vals))])
+		}
+		uses := []string{`return pcall(require, "zz")`, `return pcall(require, "string")`, `return pcall(package.searchpath or print, "zz", package.path or "?")`, `return pcall(require, 1)`, `return pcall(require, "a.b.c")`,
+			`local ok, s = pcall(function() return package.searchers[1]("zz") end) return ok`, `local ok, s = pcall(function() return package.searchers[2]("zz") end) return ok`, `return pcall(dofile, "/nonexistent")`, `return pcall(loadfile, "/nonexistent", 1, 2)`}
+		src.WriteString(uses[g.Choose(len(uses))])
+		ctx.Sample = src.String()
+		ctx.Shape = core.HashString(ctx.Sample)
+		ctx.Count("fault.package table overwritten", 1)
+		out := h.Run("pkg", ctx.Sample)
+		if out.Panic != nil {
+			failP("package-state", out.Panic, "package tables overwritten by the program")
+			return
 		}
 	case "bin":
 		// binary chunks: string.dump of a generated program, 1-4 bytes corrupted (length fields, counts,
